@@ -194,6 +194,8 @@ pub struct M<'t> {
     pub steps: u64,
     pub budget: u64,
     pub exhausted: bool,
+    /// current recursion depth of the interpreter (bounded, so that the naive interpreter itself cannot overflow the native stack)
+    pub depth: u32,
     pub backtracks: u64,
     /// per node id: bit set of matched lengths in characters (only when observing)
     pub obs: Option<Vec<u64>>,
@@ -229,6 +231,7 @@ impl<'t> M<'t> {
             steps: 0,
             budget: 2_000_000,
             exhausted: false,
+            depth: 0,
             backtracks: 0,
             obs: None,
             cond_taken: None,
@@ -279,10 +282,17 @@ impl<'t> M<'t> {
 
     fn m_inner(&mut self, n: &R, pos: usize, st: &mut St, k: K<'_, 't>) -> bool {
         self.steps += 1;
-        if self.steps > self.budget {
+        if self.steps > self.budget || self.depth > 6000 {
             self.exhausted = true;
             return false;
         }
+        self.depth += 1;
+        let r = self.m_node(n, pos, st, k);
+        self.depth -= 1;
+        r
+    }
+
+    fn m_node(&mut self, n: &R, pos: usize, st: &mut St, k: K<'_, 't>) -> bool {
         match &n.k {
             RK::Empty => k(self, pos, st),
             RK::Lit(c, ci) => {
